@@ -95,24 +95,22 @@ theorem formFields_of_params {V : Type} (R : List String) (fps : List (Param2 V)
     simp only [clearReq, formFieldsA3]
     congr 1
 
-/-- **formDataBody**: inline form parameters with distinct names, under a form media type, become a request body
-    that describes exactly these form fields — each with its name, requiredness and constraints -/
-theorem formBody_inputs {V : Type} (env : Env3 V) (cs : List String) (fps : List (Param2 V))
-    (hn : nodupKeys (fps.map (fun p => (p.name, toV3FormProp p))) = true)
-    (hl : ∀ p ∈ fps, p.loc = "formData") (hi : ∀ p ∈ fps, itemsOK3 p.items = true)
-    (hm : cs.any isFormMime = true) :
-    bodyA3 (.val (formBody env cs (formMap (fps.map (fun p => (p.name, toV3FormProp p)))))) =
-    fps.map (fun p => inputA2 (.val p)) := by
+/-- the request body formDataBody builds from inline form parameters with distinct names: an object schema with one
+    property per parameter (own `required` list cleared) and the sorted names of the required ones -/
+theorem formBody_shape {V : Type} (env : Env3 V) (cs : List String) (fps : List (Param2 V))
+    (hn : nodupKeys (fps.map (fun p => (p.name, toV3FormProp p))) = true) :
+    (formBody env cs (formMap (fps.map (fun p => (p.name, toV3FormProp p))))).mimes = (if cs.isEmpty then ["*/*"] else cs) ∧
+    (formBody env cs (formMap (fps.map (fun p => (p.name, toV3FormProp p))))).schema =
+      some (.node { ty := some "object",
+                    req := sortStrs (((fps.map (fun p => (p.name, propRequired p.name (toV3FormProp p)))).filter (·.2)).map (·.1)) }
+                  (fps.map (fun p => (Slot.prop p.name, clearReq (toV3FormProp p))))) ∧
+    nodupKeys (fps.map (fun p => (p.name, toV3FormProp p, propRequired p.name (toV3FormProp p)))) = true := by
   rw [formMap_nodup _ hn]
-  have hne : cs.isEmpty = false := by
-    cases cs with
-    | nil => simp at hm
-    | cons _ _ => rfl
   -- the entries: every form schema is inline
   have hent : (fps.map (fun p => (p.name, toV3FormProp p))).filterMap (fun (ns : String × Sch V) => formEntry env ns.1 ns.2) =
       fps.map (fun p => (p.name, toV3FormProp p, propRequired p.name (toV3FormProp p))) := by
     rw [List.filterMap_map]
-    clear hn hl hi
+    clear hn
     induction fps with
     | nil => rfl
     | cons p rest ih =>
@@ -124,7 +122,7 @@ theorem formBody_inputs {V : Type} (env : Env3 V) (cs : List String) (fps : List
     have := nodupKeys_map (fun (s : Sch V) => (s, true)) (fps.map (fun p => (p.name, toV3FormProp p)))
     have e : nodupKeys (fps.map (fun p => (p.name, toV3FormProp p, propRequired p.name (toV3FormProp p)))) =
         nodupKeys (fps.map (fun p => (p.name, toV3FormProp p))) := by
-      clear this hn hl hi hent
+      clear this hn hent
       induction fps with
       | nil => rfl
       | cons p rest ih =>
@@ -166,8 +164,23 @@ theorem formBody_inputs {V : Type} (env : Env3 V) (cs : List String) (fps : List
     simp only [List.nil_append] at h1
     rw [← h1]
     simp only [List.foldl_map]
-  simp only [bodyA3, formBody, hent, hprops, hreqs, hne, Bool.false_eq_true, if_false, hm, if_true, List.map_map,
-    Function.comp_def]
+  refine ⟨rfl, ?_, hnd3⟩
+  simp only [formBody, hent, hprops, hreqs, List.map_map, Function.comp_def]
+
+/-- **formDataBody**: inline form parameters with distinct names, under a form media type, become a request body
+    that describes exactly these form fields — each with its name, requiredness and constraints -/
+theorem formBody_inputs {V : Type} (env : Env3 V) (cs : List String) (fps : List (Param2 V))
+    (hn : nodupKeys (fps.map (fun p => (p.name, toV3FormProp p))) = true)
+    (hl : ∀ p ∈ fps, p.loc = "formData") (hi : ∀ p ∈ fps, itemsOK3 p.items = true)
+    (hm : cs.any isFormMime = true) :
+    bodyA3 (.val (formBody env cs (formMap (fps.map (fun p => (p.name, toV3FormProp p)))))) =
+    fps.map (fun p => inputA2 (.val p)) := by
+  obtain ⟨hmi, hsc, hnd3⟩ := formBody_shape env cs fps hn
+  have hne : cs.isEmpty = false := by
+    cases cs with
+    | nil => simp at hm
+    | cons _ _ => rfl
+  simp only [bodyA3, hmi, hsc, hne, Bool.false_eq_true, if_false, hm, if_true]
   rw [formFields_of_params]
   apply List.map_congr_left
   intro p hp
